@@ -30,7 +30,7 @@ def run_tlc(module, cfg, workers=16, timeout=900, simulate=None, depth=None, see
     meta = os.path.join(OUT, "tlc", "%s_%s_%d" % (module, os.path.basename(cfg).replace(".cfg", ""), os.getpid()))
     shutil.rmtree(meta, ignore_errors=True)
     os.makedirs(meta, exist_ok=True)
-    cmd = ["java", "-XX:+UseParallelGC", "-Xmx8g"] + (jvm or []) + ["-cp", JAR, "tlc2.TLC",
+    cmd = ["java", "-XX:+UseParallelGC", "-Xmx8g", "-Djava.io.tmpdir=%s" % meta] + (jvm or []) + ["-cp", JAR, "tlc2.TLC",
            "-workers", str(workers), "-metadir", meta, "-noGenerateSpecTE", "-config", cfg]
     if not deadlock:
         cmd.append("-deadlock")
